@@ -1,10 +1,17 @@
 /-
   C01 — generated moves are exactly the legal moves.
 
-  Status: the full statement `gen_all_exact` (a permutation of `Spec.legalMoves (abs p)`) is NOT
-  proved; it is decided on every run by the correspondence with the SPEC oracle (exhaustive castling
-  lattice, two-ply special chains, playouts, constructed positions).  Proved here, for every
-  position satisfying the chain invariant and every hasher:
+  Status: SOUNDNESS is proved on the model at full strength — `no_illegal_move_generated`: for every
+  well-formed position (sentinel ring, no inner sentinel, king caches right, abstraction a legal
+  position in the sense of the property), every successor of the full move generation carries a
+  move that is LEGAL under the specification's rules (rules of movement of its piece, promotion
+  flag exactly on the last rank, en passant only onto the target, castling only with right, rook,
+  empty and unattacked squares — adjacent enemy king included —, own king not attacked afterwards).
+  The pseudo-legal stage is an equivalence (`pseudo_targets_are_the_rules`, both directions).
+  COMPLETENESS (no legal move missing) and "no move twice" are decided on every run by the
+  correspondence with the SPEC oracle (exhaustive castling lattice, two-ply special chains,
+  playouts, constructed positions).  Also proved, for every position satisfying the chain invariant
+  and every hasher:
     * the SPEC side: `legalMoves` is sound, complete and duplicate free for `legal` (by construction);
     * `gen_targets_not_sentinel`: every pseudo-legal target is an on-board square that is empty or
       holds an enemy piece (never the mover's own piece, never off the board);
@@ -17,6 +24,7 @@
 -/
 import Walleye.Proofs.Caps
 import Walleye.Spec.Rules
+import Walleye.Proofs.StartWF
 namespace Walleye
 
 theorem spec_legalMoves_sound_complete (P : Spec.Position) (m : Spec.Move) (hm : m ∈ Spec.allMoves) :
@@ -59,5 +67,20 @@ theorem no_castling_next_to_enemy_king (p : Pos)
     cases hadj with
     | inl h7 => rw [king_probe_uses_probed_square p ⟨9, 7⟩ h7] at e; cases e
     | inr h8 => rw [king_probe_uses_probed_square p ⟨9, 8⟩ h8] at f; cases f
+
+/-- **no illegal move appears**: every generated successor carries a legal move of the specification -/
+theorem no_illegal_move_generated (h : Hasher) (p : Pos) (wf : WFp p) :
+    ∀ q ∈ generateMoves h p .all, Spec.legal (abs p) (moveOf q) = true :=
+  fun q hq => (generateMoves_sound h p wf q hq).1
+
+/-- the pseudo-legal targets of every piece kind are exactly the specification's rules of movement -/
+theorem pseudo_targets_are_the_rules (p : Pos) (hr : RingOK p.board) (hi : InnerOK p.board) (o : Spec.Sq) (ho : InB o)
+    (pc : Piece) (hpc : p.board.get (toPt o).row (toPt o).col = .full pc) (mov : Point) :
+    mov ∈ getMoves pc (toPt o).row (toPt o).col p.board .all ↔
+      (OnBoard mov ∧ normalRule (abs p) o pc (specOf mov) = true) :=
+  getMoves_spec p hr hi o ho pc hpc mov
+
+/-- the premises are satisfiable: the start position is well formed -/
+theorem start_is_well_formed : WFp startPosition := start_wf
 
 end Walleye
